@@ -168,7 +168,8 @@ def check_case(case) -> Result:
         if np.any(np.abs(gl - gr) > TOL["slope_rel"] * sl_scale + 1e-9 * sl_scale):
             k = int(np.argmax(np.abs(gl - gr) / sl_scale))
             r.fail("derivative_discontinuous", f"knot {k + 1}: left slope {gl[k]!r}, right slope {gr[k]!r}")
-        vscale = np.maximum(np.abs(y[1:-1]), np.maximum(np.abs(y[:-2]), np.abs(y[2:]))) + 1e-300
+        # rounding in the Horner evaluation at t ~ h scales with |d|*h <= 3*max adjacent secant * h, not only with |y|
+        vscale = np.maximum(np.abs(y[1:-1]), np.maximum(np.abs(y[:-2]), np.abs(y[2:]))) + 3.0 * sl_scale * h[:-1] + 1e-300
         if np.any(np.abs(vl - y[1:-1]) > 1e-9 * vscale):
             k = int(np.argmax(np.abs(vl - y[1:-1]) / vscale))
             r.fail("value_discontinuous", f"knot {k + 1}: left limit {vl[k]!r} vs y {y[k + 1]!r}")
